@@ -437,6 +437,28 @@ def generate(run_seed, tier_cfg):
     else:
         raise AssertionError(topo)
 
+    # unrelated tables that happen to share an identifier: an array variable of one response
+    # gets the alias of an array variable of another (think: two datasets, both with "pets")
+    corp = [a for a in sorted(args) if args[a]["kind"] == "response" and "corpus" in args[a]]
+    if len({args[a]["corpus"] for a in corp}) >= 2 and rnd.random() < 0.25:
+        def array_aliases(aid):
+            d = json.loads(model.corpus_text(args[aid]["corpus"]))
+            dims = d.get("value", d)["result"]["dimensions"]
+            out = []
+            for dm in dims:
+                t = dm.get("type", {})
+                if t.get("class") == "enum" and t.get("subtype", {}).get("class") == "variable":
+                    al = (dm.get("references") or {}).get("alias")
+                    if al and al not in out:
+                        out.append(al)
+            return out
+
+        a0, a1 = rnd.sample(corp, 2)
+        if args[a0]["corpus"] != args[a1]["corpus"]:
+            al0, al1 = array_aliases(a0), array_aliases(a1)
+            if al0 and al1:
+                args[a1]["perturb"] = list(args[a1].get("perturb", [])) + [["dimalias", rnd.choice(al1), rnd.choice(al0)]]
+
     # forms: outside T6 responses are mostly dicts (the only form that can be edited)
     if topo != "T6":
         for aid in sorted(args):
